@@ -20,6 +20,8 @@ def pfcModel (c : Case) : DictModel :=
     extract := fun i => PFC.extract d i
     image := PFC.save d
     prefixRange := some fun p => PFC.locatePrefix d p
+    prefixStrings := some fun p => PFC.extractPrefix d p
+    tableScan := some (PFC.table d)
     reload := some fun stream =>
       match PFC.load stream with
       | some (d', rest) =>
